@@ -342,7 +342,9 @@ static void gf2Inv(word b[], const word a[], const qr_o* f, void* stack)
 	{
 		word* c = (word*)stack;
 		stack = c + f->n + 1;
-		ppInvMod(c, a, f->mod, f->n + 1, stack);
+		// c <- a (f->n + 1 слов, как и в mod)
+		wwCopy(c, a, f->n), c[f->n] = 0;
+		ppInvMod(c, c, f->mod, f->n + 1, stack);
 		ASSERT(c[f->n] == 0);
 		wwCopy(b, c, f->n);
 	}
@@ -364,8 +366,12 @@ static void gf2Div(word b[], const word divident[], const word a[],
 	if (gf2Deg(f) % B_PER_W == 0)
 	{
 		word* c = (word*)stack;
-		stack = c + f->n + 1;
-		ppDivMod(c, divident, a, f->mod, f->n + 1, stack);
+		word* d = c + f->n + 1;
+		stack = d + f->n + 1;
+		// c <- a, d <- divident (f->n + 1 слов, как и в mod)
+		wwCopy(c, a, f->n), c[f->n] = 0;
+		wwCopy(d, divident, f->n), d[f->n] = 0;
+		ppDivMod(c, d, c, f->mod, f->n + 1, stack);
 		ASSERT(c[f->n] == 0);
 		wwCopy(b, c, f->n);
 	}
@@ -375,7 +381,7 @@ static void gf2Div(word b[], const word divident[], const word a[],
 
 static size_t gf2Div_deep(size_t n)
 {
-	return O_OF_W(n + 1) + ppDivMod_deep(n + 1);
+	return O_OF_W(2 * n + 2) + ppDivMod_deep(n + 1);
 }
 
 /*
